@@ -13,6 +13,7 @@ BREAKS = [
     ('check_imm_size: s08 range off by one', 'miasmx/arch/ia32_arch.py', 'elif size == s08 and -0x80 <= j < 0x80:', 'elif size == s08 and -0x80 <= j <= 0x80:', 'checks.C02smt', 'check_imm_size[s08,int]:post'),
     ('check_imm_size: u16 accepts negatives', 'miasmx/arch/ia32_arch.py', 'elif size == u16 and 0 <= i < 0x10000:', 'elif size == u16 and -1 <= i < 0x10000:', 'checks.C02smt', 'check_imm_size[u16,int]:post'),
     ('ad_to_generic: disp8 form lost at -128', 'miasmx/arch/ia32_arch.py', '            if -128 <= j < 128:\n                to_add.append({x86_afs.imm:x86_afs.s08})\n        else:', '            if -128 < j < 128:\n                to_add.append({x86_afs.imm:x86_afs.s08})\n        else:', 'checks.C02smt', 'ad_to_generic['),
+    ('rest_slice: gap start taken from the wrong bound', 'miasmx/expression/expression_eval_abstract.py', '            o.append((last, a))\n            last = b', '            o.append((last, a))\n            last = a', 'checks.C07smt', 'rest_slice['),
     ('dict_sub: operands swapped', 'miasmx/core/parse_ad.py', '            tmp[k] -= b[k]', '            tmp[k] = b[k] - tmp[k]', 'checks.C19smt', 'dict_sub['),
     ('dict_add: zero coefficient kept', 'miasmx/core/parse_ad.py', '        if tmp[k]==0:\n            del(tmp[k])', '        if tmp[k]==1:\n            del(tmp[k])', 'checks.C19smt', 'dict_add['),
     ('dict_mul: coefficient of the other operand dropped', 'miasmx/core/parse_ad.py', '                ret[k] = b[x86_afs.imm]*a[k]', '                ret[k] = b[x86_afs.imm]+a[k]', 'checks.C19smt', 'dict_mul['),
